@@ -545,7 +545,8 @@ pub enum Case {
     Datum { datum: Gpd },
     /// a generated datum as inline datum of output `out` of corpus transaction (src, idx) and appended to its witness
     /// datums; the validity flag of the rebuilt transaction is `valid`
-    InOutput { src: String, idx: Option<u16>, out: u16, valid: bool, datum: Gpd },
+    /// `value`: replace the output's value by (coin, [(policy byte, asset name byte, quantity)]) — quantities over the whole u64 range
+    InOutput { src: String, idx: Option<u16>, out: u16, valid: bool, datum: Gpd, #[serde(default)] value: Option<(u64, Vec<(u8, u8, u64)>)> },
 }
 
 fn both_txs(tx: &MultiEraTx, view: &TxView, src: &[u8], obs: &mut Obs, ab: &mut Absorb) -> Result<(), Fail> {
@@ -632,7 +633,7 @@ fn check_inner(c: &Case, obs: &mut Obs, ab: &mut Absorb) -> Result<(), Fail> {
             let b = beta::Mapper::new(NoLedger).map_plutus_datum(&pd);
             cmp_pd(&model, &beta::mpd(&b), "datum", obs, ab)
         }
-        Case::InOutput { src, idx, out, valid, datum } => {
+        Case::InOutput { src, idx, out, valid, datum, value: value_edit } => {
             // rebuild the transaction with the datum inline in one output and among the witness datums
             let base = crate::c31::Case {
                 src: src.clone(), idx: *idx, flag: Some(*valid), dup_inputs: vec![], sibling_inputs: vec![], dup_collateral: vec![],
@@ -667,6 +668,26 @@ fn check_inner(c: &Case, obs: &mut Obs, ab: &mut Absorb) -> Result<(), Fail> {
                         _ => pv_fail!("layout-error", "output map"),
                     },
                     _ => pv_fail!("layout-error", "output"),
+                };
+                let value = match value_edit {
+                    None => value,
+                    Some((coin, assets)) if assets.is_empty() => cborx::uint(*coin),
+                    Some((coin, assets)) => {
+                        obs.class("in-output:value-replaced");
+                        if assets.iter().any(|a| a.2 > i64::MAX as u64) {
+                            obs.class("in-output:asset-quantity-above-i64");
+                        }
+                        let mut pols: std::collections::BTreeMap<u8, std::collections::BTreeMap<u8, u64>> = Default::default();
+                        for (p, n, q) in assets {
+                            pols.entry(*p).or_default().insert(*n, (*q).max(1));
+                        }
+                        cborx::array(vec![
+                            cborx::uint(*coin),
+                            cborx::map(pols.iter().map(|(p, names)| {
+                                (cborx::bytes(&[*p; 28]), cborx::map(names.iter().map(|(n, q)| (cborx::bytes(&[b'a' + (*n % 26)]), cborx::uint(*q))).collect()))
+                            }).collect()),
+                        ])
+                    }
                 };
                 *o = cborx::map(vec![
                     (cborx::uint(0), addr),
@@ -733,13 +754,15 @@ pub fn run(s: &Session) {
     let src: Vec<(String, Option<u16>)> = crate::c31::sources(false).iter().filter(|x| x.2 >= 6).map(|x| (x.0.clone(), x.1)).collect();
     s.forall("datum-in-output", s.pick(60_000, 1_200_000), move || {
         let src = src.clone();
-        (any::<u16>(), any::<u16>(), prop_oneof![2 => Just(true), 1 => Just(false)], gpd()).prop_map(move |(sel, out, valid, datum)| {
+        let q = || prop_oneof![Just(1u64), Just(i32::MAX as u64), Just(u32::MAX as u64), Just(1u64 << 32), Just(i64::MAX as u64), Just(1u64 << 63), Just((1u64 << 63) + 1), Just(u64::MAX), any::<u64>()];
+        let value = proptest::option::weighted(0.5, (q(), proptest::collection::vec((0u8..3, 0u8..4, q()), 0..4)));
+        (any::<u16>(), any::<u16>(), prop_oneof![2 => Just(true), 1 => Just(false)], gpd(), value).prop_map(move |(sel, out, valid, datum, value)| {
             let (name, idx) = &src[pvkit::pick_idx(sel, src.len())];
-            Case::InOutput { src: name.clone(), idx: *idx, out, valid, datum }
+            Case::InOutput { src: name.clone(), idx: *idx, out, valid, datum, value }
         })
     }, |c, o| check(s, c, o));
     for c in ["int:cbor-int-in-i64", "int:cbor-int-outside-i64", "int:bignum-in-i64", "int:bignum-outside-i64", "datum:inline",
-        "datum:hash", "datum:witness", "output-with-assets", "datum-decoded", "in-output-decoded", "in-output:valid", "in-output:invalid", "tx",
+        "datum:hash", "datum:witness", "output-with-assets", "datum-decoded", "in-output-decoded", "in-output:valid", "in-output:invalid", "in-output:asset-quantity-above-i64", "tx",
         "block:byron", "block:shelley", "block:mary", "block:alonzo", "block:babbage", "block:conway"] {
         s.health(s.class_count(c) > 0, &format!("class {c} never evaluated"));
     }
